@@ -37,6 +37,8 @@ type Frame struct {
 	recoverVal *V
 	varRefs  map[string][]varRef
 	isInit   bool
+	anchorOrd   map[string]int
+	usedAnchors map[string]bool
 }
 
 // varRef is one place where a source variable is bound to an SSA value.
